@@ -29,6 +29,17 @@ theorem C13_stop_leaves_nothing_fetching (cfg : Cfg) (script : List PEntry) (evs
   have hc := stopCore_calm_any (cfg := cfg) (opsN_calm cfg cfg.depth) (opsN_procNone cfg cfg.depth) s (run_sf cfg script evs).parkedBlock
   exact ⟨stopCore_startD s, hq.1, hq.2, hc.2.1, hc.2.2⟩
 
+/-- … and no timer of the consumer is left armed: the auto-commit looper is gone and no commit retry is
+    scheduled - from ANY state, reachable or not (the last two steps of `stop()` see to it). -/
+theorem C13_stop_leaves_no_timer (cfg : Cfg) (inner : Ops) (s : St) :
+    (stopCore cfg inner s).looper = none ∧ (∀ d dl a, (stopCore cfg inner s).commitCall ≠ .pending d dl a) := by
+  unfold stopCore
+  simp only []
+  generalize stopCommitReq cfg inner _ = x
+  obtain ⟨h1, h2⟩ := stopTimers_spec x
+  obtain ⟨h3, h4⟩ := stopFinish_timers (stopTimers x)
+  exact ⟨h3.trans h1, fun d dl a => by rw [h4]; exact h2 d dl a⟩
+
 /-- `stop()` called when the consumer is not running raises `RestopError` and changes nothing. -/
 theorem C13_stop_when_stopped (cfg : Cfg) (inner : Ops) (s : St) (h : s.startD = .none) :
     stop cfg inner s = emit .raisedRestop s := by
@@ -41,6 +52,19 @@ theorem C13_restartable (cfg : Cfg) (off : Int) (s : St) (h : s.startD = .none) 
   unfold start doFetch startErrback errbackRaises emit
   simp only [h, hr]
   refine ⟨?_, ?_⟩ <;> (repeat' split) <;> simp_all
+
+/-- `stop()` forgets the request it cancelled even when the client swallowed the cancel (the late result is
+    dropped, never delivered into a later run), so a restart - from ANY state `stop()` is called in - immediately
+    issues the request its start offset calls for. -/
+theorem C13_restart_after_stop (cfg : Cfg) (inner : Ops) (off : Int) (s : St) :
+    (stopCore cfg inner s).requestD = .none ∧
+      (start cfg off (stopCore cfg inner s)).startD ≠ .none ∧ (start cfg off (stopCore cfg inner s)).requestD ≠ .none := by
+  have hr : (stopCore cfg inner s).requestD = .none := by
+    unfold stopCore
+    simp only []
+    exact stopFinish_requestD _
+  letI : EnvHyp := ⟨False⟩   -- `stopCore_startD` assumes nothing about the environment
+  exact ⟨hr, C13_restartable cfg off _ (stopCore_startD s) hr⟩
 
 /-! ## Finding F26 (known, pinned by the suite): `shutdown()` from inside the processor -/
 
@@ -93,8 +117,10 @@ end Afkak.Props.C13
 /- OBLIGATIONS
 C13_start_fires_at_most_once
 C13_stop_leaves_nothing_fetching
+C13_stop_leaves_no_timer
 C13_stop_when_stopped
 C13_restartable
+C13_restart_after_stop
 C13_shutdown_waits_counterexample
 C13_shutdown_waits_partial
 -/
